@@ -392,9 +392,72 @@ class Gather:
         self.mask = mask        # Arr (1-D bool), snapshot
         self.dtype = 'float'
 
-    def map(self, f):
+    def map(self, f, dtype=None):
         v = self.value
-        return Gather(lambda i: f(v(i)), self.mask)
+        g = Gather(lambda i: f(v(i)), self.mask)
+        g.dtype = dtype or self.dtype
+        g.first, g.last = self.first, self.last
+        return g
+
+    first = None      # lazily introduced source indices of the first / last selected element
+    last = None
+
+
+def gather_binop(ctx, op, a, b):
+    """Arithmetic / comparison between a selection and a scalar (or a selection of the same source positions):
+    element-wise on the selected elements, aligned with the source indexing."""
+    interp = ctx.world.interp
+    cmp_ops = {'Lt': S.lt, 'LtE': S.le, 'Gt': S.gt, 'GtE': S.ge, 'Eq': S.eq, 'NotEq': S.ne}
+
+    def apply(x, y):
+        if op in cmp_ops:
+            return cmp_ops[op](x, y)
+        return interp.scalar_binop(ctx, op, x, y)
+    dt = 'bool' if op in cmp_ops else 'float'
+    if isinstance(a, Gather) and isinstance(b, Gather):
+        if a.mask is not b.mask:
+            raise Unsupported('operation between two different selections')
+        return _gather2(a, b, apply, dt)
+    if isinstance(a, Gather):
+        y = unwrap0(b)
+        if not S.is_scalar(y):
+            raise Unsupported('selection combined with an array')
+        return a.map(lambda x: apply(x, y), dt)
+    x = unwrap0(a)
+    if not S.is_scalar(x):
+        raise Unsupported('selection combined with an array')
+    return b.map(lambda y: apply(x, y), dt)
+
+
+def _gather2(a, b, apply, dt):
+    av, bv = a.value, b.value
+    g = Gather(lambda i: apply(av(i), bv(i)), a.mask)
+    g.dtype = dt
+    g.first, g.last = a.first, a.last
+    return g
+
+
+def gather_ends(ctx, g):
+    """Source indices of the first and last selected element of a non-empty selection (fresh integers with
+    their defining axioms, as for np.where(v)[0][[0, -1]])."""
+    import z3
+    if g.first is None:
+        n = g.mask.shape[0]
+        q = z3.Int(ctx._name('gq'))
+        f, l = ctx.fresh_int('sel_first'), ctx.fresh_int('sel_last')
+        sel = lambda t: S.z(S.truth(g.mask.at((t,))))
+        ctx.assume(z3.And(f >= 0, f <= l, l < S.z(n), sel(f), sel(l),
+                          z3.ForAll([q], z3.Implies(z3.And(q >= 0, q < S.z(n), sel(q)), z3.And(f <= q, q <= l)))),
+                   'lib[exact]:first/last element of a boolean selection')
+        g.first, g.last = f, l
+    return g.first, g.last
+
+
+def gather_nonempty(ctx, g):
+    import z3
+    n = g.mask.shape[0]
+    q = z3.Int(ctx._name('gq'))
+    return z3.Exists([q], z3.And(q >= 0, q < S.z(n), S.z(S.truth(g.mask.at((q,))))))
 
 
 def expand_index(idx, ndim):
